@@ -635,8 +635,15 @@ func NewAddressPubKey(serializedPubKey []byte, net *chaincfg.Params) (*AddressPu
 	switch serializedPubKey[0] {
 	case 0x02, 0x03:
 		pkFormat = PKFCompressed
+	case 0x04:
+		pkFormat = PKFUncompressed
 	case 0x06, 0x07:
 		pkFormat = PKFHybrid
+	default:
+		// bchec.ParsePubKey masks the low bit of the format byte, so it
+		// lets 0x05 through as an uncompressed key even though no
+		// serialization uses that byte.
+		return nil, errors.New("unsupported public key format byte")
 	}
 
 	return &AddressPubKey{
